@@ -2,7 +2,7 @@ ID = "C06"
 LEVEL = "model_checking"
 MIRSYM = "C06"
 BOUNDS = ("histories of <= 5 (quick) / 7 (thorough) steps over {subscribe+accept, sink clone, sink drop, own unsubscribe, connection close}, <= 2 / 3 subscriptions with <= 2 / 3 sinks "
-          "each on one connection (a second connection only issues foreign unsubscribes), cap symbolic in 0..3; sub ids / connection ids symbolic and distinct; connection ids of consecutive accepts / service-builder builds; the closing task's captures and calls; the cap through every builder step")
+          "each on one connection (a second connection only issues foreign unsubscribes), cap symbolic in 0..3; sub ids / connection ids symbolic and distinct; connection ids of consecutive accepts / service-builder builds; the closing task's captures and calls; the cap through every builder step; accept() failing after every prefix of its sends")
 EXPLANATION = ("The real MIR of BoundedSubscriptions::{new,acquire}, PendingSubscriptionSink::accept, SubscriptionSink::{clone,is_closed,drop}, and the unsubscribe callback is executed "
                "symbolically step by step over a world built by the driver (subscriber table as association list, semaphore as counter, Arc reference counts, Rust drop glue). After every "
                "step z3 decides the bookkeeping invariants against the reference state the property prescribes; provenance obligations tie the cap and the permit to the configuration. Connections get distinct ids on both assembly routes and the closing task is no second owner of the subscription.")
